@@ -7,6 +7,7 @@ import Driver.ProtoDrv
 import Driver.FMDrv
 import Driver.CfgDrv
 import Driver.LoadDrv
+import Driver.ConcDrv
 /-!
 Line-protocol driver over the executable models (DESIGN.md Appendix B).
 One operation per input line, one result line per operation.  Core Lean only, so that it links
@@ -34,6 +35,10 @@ def dispatch (s : DState) (line : String) : DState × String :=
       | none => (s, "bad-op")
     else if t.startsWith "url." || t.startsWith "bs." then
       match protoStep toks with
+      | some out => (s, out)
+      | none => (s, "bad-op")
+    else if t.startsWith "conc." then
+      match concStep toks with
       | some out => (s, out)
       | none => (s, "bad-op")
     else if t.startsWith "load." then
